@@ -3,7 +3,7 @@
 import sys, os, json, shutil, subprocess, re
 pid, v, prop, needs, detected = sys.argv[1:6]
 wt = "/tmp/wt/%s" % pid
-sid = "%s-%s" % (pid, v)
+sid = "%s-%s%s" % (pid, os.environ.get("SEED_WAVE", ""), v)
 d = "/verif/seeded/%s" % sid
 os.makedirs(d, exist_ok=True)
 shutil.copy(os.path.join(wt, "mut%s.patch" % v), os.path.join(d, "patch.diff"))
